@@ -123,6 +123,30 @@ fn eref(o: Option<(&SimKey, &SimVal)>) -> Outcome {
     Outcome::EntryRef(o.map(|(k, v)| (k.tok, v.tok, addr(k), addr(v))))
 }
 
+/// Input-domain guard: sizes must be representable. An operation whose entry size
+/// (overhead + key heap + value heap), or whose mutated entry size, does not fit in usize is
+/// outside every property's domain and is skipped (this can only arise when shrinking or fault
+/// injection changed which entry a concrete `Mutate` hits).
+pub fn domain_ok(w: &World, op: &Op, overhead: usize) -> bool {
+    match &op.kind {
+        OpKind::Insert { kh, vh, .. } | OpKind::TryInsert { kh, vh, .. } => {
+            overhead.checked_add(*kh).and_then(|x| x.checked_add(*vh)).is_some()
+        }
+        OpKind::Mutate { k, vh, .. } => {
+            let c = match &w.caches[op.target as usize] {
+                Some(c) => c,
+                None => return true,
+            };
+            // direct field reads of the stored key; lookup callbacks are discarded by the caller
+            match c.peek_entry(&KeyId(*k)) {
+                Some((key, _)) => overhead.checked_add(key.heap).and_then(|x| x.checked_add(*vh)).is_some(),
+                None => true,
+            }
+        }
+        _ => true,
+    }
+}
+
 /// Executes `op`; may unwind (the caller wraps it in catch_unwind).
 pub fn exec(w: &mut World, op: &Op) -> Outcome {
     let t = op.target as usize;
